@@ -147,6 +147,20 @@ def main():
         r = run(n, cases)
         out.append(r)
         print(json.dumps(r), flush=True)
+        if os.path.isdir(n):
+            rr = dict(r, name=os.path.basename(os.path.abspath(n)), cases=("registered quick counts" if cases == 0 else cases),
+                      how="scratch worktree of /repo HEAD + patch.diff, harness copy built against it (tools/mutants.py), each listed check run with VERIF_SEED=0")
+            json.dump(rr, open(os.path.join(n, "check_result.json"), "w"), indent=1)
+            # keep the shrunk counterexample(s) next to the change
+            rp = os.path.join(n, "replay")
+            shutil.rmtree(rp, ignore_errors=True)
+            files = sorted(os.listdir(f"{WORK}/verif/replays"))
+            if files:
+                os.makedirs(rp)
+                for f in files[:6]:
+                    shutil.copy(os.path.join(f"{WORK}/verif/replays", f), rp)
+        shutil.rmtree(f"{WORK}/verif/replays", ignore_errors=True)
+        os.makedirs(f"{WORK}/verif/replays", exist_ok=True)
     sh(f"git -C /repo worktree remove --force {WORK}/repo")
     shutil.rmtree(WORK, ignore_errors=True)
     caught = sum(1 for r in out if any(v["rc"] == 1 for v in r.get("results", {}).values()))
